@@ -84,6 +84,7 @@ class Context:
         self.decisions = 0
         self.forced = None  # optional list of forced truth values (path exploration)
         self._aux_cache = {}
+        self.angles = {}
         import os, random
 
         self._rng = random.Random(int(os.environ.get("VERIF_SEED", "0") or 0) * 7919 + 17)
@@ -473,6 +474,18 @@ class Sym:
         return self
 
     def _transc(self, name):
+        if name in ("cos", "sin") and self.d.is_const() and len(self.n.t) == 1:
+            # k * theta with theta a registered angle: the algebraic pair (c, s), c^2 + s^2 = 1
+            (m, k), = self.n.t.items()
+            if len(m) == 1 and m[0][1] == 1 and m[0][0] in CTX.angles:
+                ent = CTX.angles[m[0][0]]
+                coef = k / self.d.const_value()
+                if ent["coef"] is None:
+                    ent["coef"] = coef
+                if ent["coef"] == coef:
+                    return ent["c"] if name == "cos" else ent["s"]
+                if ent["coef"] == -coef:
+                    return ent["c"] if name == "cos" else -ent["s"]
         if self.is_const():
             return getattr(math, {"arccos": "acos", "arcsin": "asin", "arctan": "atan"}.get(name, name))(float(self.const_value()))
         if name == "exp":
